@@ -222,6 +222,7 @@ prop('C08', [
     state.r_pair,
     memo.r_inval,
     models.r_autoref_apply,
+    models.r_autoref_siblings,
 ],
     'Function.__init__ takes exactly one count on every normal path and '
     'none before a rejection; __del__ gives back exactly one, once '
@@ -459,7 +460,10 @@ MODEL_TEXT = {
            'variables, pairs adjacent, sifted variable at a position of '
            'least size, never larger).',
     'C08': ' Models: `Function.__init__` / `__del__` against a recording '
-           'manager; `BDD.__del__`; `autoref.BDD.apply`.',
+           'manager; `BDD.__del__`; `autoref.BDD.apply`; every method '
+           '`dd.autoref.BDD` shares with `dd.bdd.BDD` interpreted on both '
+           'sides from the same manager (about 100 calls, two orders) '
+           'and compared.',
     'C10': ' Models: `support`, `descendants`, `is_essential` against '
            'reachability; `count` and `pick_iter` against truth tables '
            '(702 calls on three managers).',
